@@ -535,6 +535,16 @@ impl MaTreeNode {
                     continue;
                 }
             };
+            // The decision is redundant if the threshold is outside of the range of this node; only
+            // one of the children is reachable then.
+            if value > *range.end() {
+                stack.push((&**right, range));
+                continue;
+            }
+            if value + 1 < *range.start() {
+                stack.push((&**left, range));
+                continue;
+            }
             let new_lower_bound = lower_bound.min(value);
             let new_upper_bound = upper_bound.max(value);
             if new_upper_bound.abs_diff(new_lower_bound) > 1024 - 2 {
